@@ -585,12 +585,30 @@ pub fn run(args: &Args) -> Report {
         rep.count("sweep:spans-and-noise");
     }
 
-    // d. numbers of 1..200 digits in every integer position
-    for digits in 1..=200usize {
+    // d. numbers in every integer position: 1..200 digits, then every value within 12 of a power of two up to
+    // 2^66 and within 12 of the powers of ten around the 64-bit limit (the last checked step of an accumulating
+    // reader only overflows for a handful of values right at the limit)
+    let mut numbers: Vec<String> = (1..=200usize).map(|digits| (0..digits).map(|i| (b'1' + ((i * 7) % 9) as u8) as char).collect()).collect();
+    for bits in [8u32, 16, 31, 32, 63, 64, 65, 66] {
+        let base: u128 = 1u128 << bits;
+        for d in 0..=12u128 {
+            numbers.push(format!("{}", base + d));
+            numbers.push(format!("{}", base - d));
+        }
+    }
+    for p10 in [19u32, 20, 21] {
+        let base: u128 = 10u128.pow(p10);
+        for d in 0..=3u128 {
+            numbers.push(format!("{}", base + d));
+            numbers.push(format!("{}", base - d));
+        }
+    }
+    numbers.push("00000000000000000000000000000000000000001".into());
+    numbers.push("0".into());
+    for num in numbers {
         if !mine(&mut caseno) {
             continue;
         }
-        let num: String = (0..digits).map(|i| (b'1' + ((i * 7) % 9) as u8) as char).collect();
         let (_, e2) = crate::c01::base_events();
         for (kt, ct) in [(Some(num.clone()), None), (None, Some(num.clone()))] {
             let mut r = EvRender::plain();
